@@ -1209,6 +1209,18 @@ def install_default_models(reg):
     em["re.match"] = re_search("match")
     em["re.fullmatch"] = re_search("fullmatch")
 
+    # re.compile(pattern): an object that remembers the literal pattern; its search/match/fullmatch are the module functions
+    def re_compile(it, args, kw):
+        pat = it.force(args[0])
+        if it.concrete(pat) is _NOCONST or len(args) > 1 or kw:
+            raise OutOfSubset("re.compile of a non-literal pattern / with flags")
+        return VObj("re.Pattern", {"pattern": pat})
+
+    em["re.compile"] = re_compile
+    for _mode in ("search", "match", "fullmatch"):
+        reg.boundary["re.Pattern." + _mode] = (lambda f_: (lambda it, recv, meth, args, kwargs, fr:
+                                                           f_(it, [recv.fields["pattern"]] + list(args), kwargs)))(re_search(_mode))
+
     def struct_pack(it, args, kw):
         fmt = it.concrete(it.force(args[0]))
         v = it.force(args[1])
